@@ -47,7 +47,7 @@ ev_new (char kind, void *ud)
 			printf ("%c%lld@%lld:%lld ", evs [k].kind, evs [k].req, evs [k].pos, evs [k].ans) ;
 		printf ("\n") ;
 		fflush (stdout) ;
-		_exit (3) ;
+		SFH_EXIT (3) ;
 		}
 	if (nev == capev)
 	{	capev = capev ? 2 * capev : 256 ;
